@@ -19,6 +19,7 @@ import (
 	"context"
 	"fmt"
 	"io"
+	"net"
 	"net/http/httptest"
 	"os"
 	"sort"
@@ -421,6 +422,133 @@ func legacyOpenTrial(r *vh.Run, i int) {
 	}
 }
 
+func freePort() int {
+	l, err := net.Listen("tcp", "127.0.0.1:0")
+	if err != nil {
+		return 0
+	}
+	defer l.Close()
+	return l.Addr().(*net.TCPAddr).Port
+}
+
+// shutdownTrial: Run on a loopback listener, then Shutdown (no deadline, as `serve` calls it on a signal) while
+// requests are around, with and without a rate limit.  Variant "late header": a connection whose request line was
+// sent before Shutdown and whose header is completed after the listener has been closed - net/http leaves such a
+// connection alone, the handler then runs next to Shutdown.  Variant "burst": clients keep sending GET /v2/ while
+// Shutdown is called.  Every request that reaches the handler is answered (or its connection closed), Shutdown and
+// Run return.  Decided by the stable-stall rule, never by a deadline.
+func shutdownTrial(r *vh.Run, i int) {
+	kind := []vh.StoreKind{vh.Mem, vh.Dir}[i%2]
+	rate := []int{1000000, 0, 50}[(i/2)%3]
+	burst := (i/6)%2 == 1
+	root := ""
+	if kind != vh.Mem {
+		root = r.TempDir("c12s")
+		defer vh.RemoveAll(root)
+	}
+	port := freePort()
+	c := vh.Conf(kind, root, vh.Neutral)
+	c.HTTP.Addr = fmt.Sprintf("127.0.0.1:%d", port)
+	c.API.RateLimit = rate
+	srv := vh.New(c)
+	wit := map[string]any{"trial": i, "store": kind.String(), "rate_limit": rate, "variant": map[bool]string{false: "late header", true: "burst"}[burst]}
+	runDone := make(chan error, 1)
+	go func() { runDone <- srv.Run(context.Background()) }()
+	addr := fmt.Sprintf("127.0.0.1:%d", port)
+	up := false
+	for k := 0; k < 400 && !up; k++ {
+		if cn, err := net.DialTimeout("tcp", addr, 200*time.Millisecond); err == nil {
+			_, _ = cn.Write([]byte("GET /v2/ HTTP/1.1\r\nHost: x\r\nConnection: close\r\n\r\n"))
+			_, _ = io.ReadAll(cn)
+			_ = cn.Close()
+			up = true
+		} else {
+			time.Sleep(10 * time.Millisecond)
+		}
+	}
+	if !up {
+		r.Inconclusive("listener did not come up (port taken?)")
+		_ = srv.Close()
+		return
+	}
+	var answered, broken atomic.Int64
+	res := vh.Watch(func() {
+		var cw sync.WaitGroup
+		var late net.Conn
+		stop := make(chan struct{})
+		if burst {
+			for cl := 0; cl < 6; cl++ {
+				cw.Add(1)
+				go func() {
+					defer cw.Done()
+					for {
+						select {
+						case <-stop:
+							return
+						default:
+						}
+						cn, err := net.DialTimeout("tcp", addr, 200*time.Millisecond)
+						if err != nil {
+							return // listener closed
+						}
+						_, _ = cn.Write([]byte("GET /v2/ HTTP/1.1\r\nHost: x\r\nConnection: close\r\n\r\n"))
+						b, _ := io.ReadAll(cn)
+						_ = cn.Close()
+						if len(b) > 0 {
+							answered.Add(1)
+						} else {
+							broken.Add(1)
+						}
+					}
+				}()
+			}
+			time.Sleep(time.Duration(2+i%7) * time.Millisecond)
+		} else {
+			var err error
+			late, err = net.DialTimeout("tcp", addr, time.Second)
+			if err == nil {
+				_, _ = late.Write([]byte("GET /v2/ HTTP/1.1\r\nHost: x\r\nConnection: close\r\n"))
+			}
+		}
+		sd := make(chan error, 1)
+		go func() { sd <- srv.Shutdown(context.Background()) }()
+		if late != nil {
+			// the listener being closed is the sign that http.Server.Shutdown has begun
+			for k := 0; k < 2000; k++ {
+				cn, err := net.DialTimeout("tcp", addr, 100*time.Millisecond)
+				if err != nil {
+					break
+				}
+				_ = cn.Close()
+				time.Sleep(time.Millisecond)
+			}
+			_, _ = late.Write([]byte("\r\n"))
+			b, _ := io.ReadAll(late)
+			_ = late.Close()
+			if len(b) > 0 {
+				answered.Add(1)
+			} else {
+				broken.Add(1)
+			}
+		}
+		<-sd
+		close(stop)
+		cw.Wait()
+		<-runDone
+	}, 3*time.Second, 60*time.Second)
+	r.Count("shutdown_trials", 1)
+	r.Count("shutdown_requests_answered", int(answered.Load()))
+	r.Distinct("configs", fmt.Sprint("shutdown ", kind, rate, burst))
+	if res.Stalled {
+		wit["blocked_goroutines"], wit["waiters"] = res.Desc, vsync.Waiters()
+		r.Violation("shutdown-hangs", fmt.Sprintf("Shutdown of a running %s server with rate limit %d never returns while a request is around (%s): every goroutine inside olareg is blocked", kind, rate, wit["variant"]), wit)
+		return
+	}
+	if !res.Done {
+		r.Inconclusive("Shutdown still running after 60 s without a stable stall")
+	}
+}
+
 func main() {
 	r := vh.Start()
 	vsync.SetTracking(true)
@@ -478,6 +606,16 @@ func main() {
 				legacyOpenTrial(r, i-nc-np-nt)
 			}
 		})
+	}
+	if !st {
+		ns := r.N(12, 120)
+		stalled := false
+		for i := 0; i < ns && !stalled; i++ { // one at a time: a hung trial leaves its goroutines parked
+			before := r.Violations()
+			shutdownTrial(r, i)
+			stalled = r.Violations() > before
+		}
+		st = stalled
 	}
 	if !st {
 		// last, on their own: the hold applies to every Write in the process
